@@ -21,6 +21,7 @@ import (
 	"strconv"
 	"strings"
 	"sync"
+	"sync/atomic"
 	"time"
 )
 
@@ -29,6 +30,9 @@ type Layer struct {
 	Units  int
 	Bounds string // human readable statement of what the layer enumerates
 	Run    func(c *Ctx, unit int)
+	// UnitLimit is the watchdog for one unit (default 120 s; normal units take milliseconds to seconds).
+	// A unit that exceeds it is reported as non-terminating and the worker stops.
+	UnitLimit time.Duration
 }
 
 type Property struct {
@@ -274,7 +278,11 @@ func tierBudget(tier string) time.Duration {
 
 func runWorker(p *Property, tier string, w, nw int, journal string) {
 	debug.SetGCPercent(400)
-	layers := p.Layers(tier)
+	layers, hang := layersWatched(p, tier)
+	if hang != "" {
+		fmt.Fprintln(os.Stderr, hang)
+		os.Exit(3)
+	}
 	rep := WorkerReport{Worker: w, Extra: map[string]int64{}}
 	c := &Ctx{prop: p, tier: tier, failKeys: map[string]bool{}, Outcomes: NewU64Set(1 << 22), Extra: rep.Extra, KnownCls: map[string]*KnownStat{}}
 	c.verbose = os.Getenv("VERIF_VERBOSE") != ""
@@ -302,7 +310,22 @@ func runWorker(p *Property, tier string, w, nw int, journal string) {
 				fmt.Fprintf(jf, "%s %d\n", L.Name, u)
 				jf.Sync()
 			}
-			runUnit(c, L, u)
+			if hung := runUnitWatched(c, L, u); hung {
+				// the stuck goroutine still owns c: report from copies and leave
+				idx := atomic.LoadInt64(&c.index)
+				st.Cut = true
+				st.Fails++
+				rep.Layers = append(rep.Layers, st)
+				rep.Fails = append(append([]Failure(nil), c.Fails...), Failure{Layer: L.Name, Unit: u, Index: idx,
+					Key:    fmt.Sprintf("%s/unit%d/idx%d/non-termination", L.Name, u, idx),
+					Detail: fmt.Sprintf("the case did not terminate within %v (the code under test loops or blocks); the rest of this worker's units were not run", unitLimit(L))})
+				rep.TotalFails = c.TotalFails + 1
+				rep.Samples = c.Samples
+				rep.Known = c.KnownCls
+				b, _ := json.Marshal(rep)
+				fmt.Printf("WORKER-REPORT %s\n", b)
+				os.Exit(0)
+			}
 			if !c.cut {
 				st.UnitsDone++
 			}
@@ -318,6 +341,33 @@ func runWorker(p *Property, tier string, w, nw int, journal string) {
 	out.Write(b)
 	out.WriteString("\n")
 	out.Flush()
+}
+
+func unitLimit(L *Layer) time.Duration {
+	if v := os.Getenv("VERIF_UNIT_LIMIT_S"); v != "" {
+		if n, err := strconv.Atoi(v); err == nil {
+			return time.Duration(n) * time.Second
+		}
+	}
+	if L.UnitLimit > 0 {
+		return L.UnitLimit
+	}
+	return 120 * time.Second
+}
+
+// runUnitWatched runs one unit under a watchdog; it returns true if the unit did not finish.
+func runUnitWatched(c *Ctx, L *Layer, u int) bool {
+	done := make(chan struct{})
+	go func() {
+		defer close(done)
+		runUnit(c, L, u)
+	}()
+	select {
+	case <-done:
+		return false
+	case <-time.After(unitLimit(L)):
+		return true
+	}
 }
 
 // runUnit runs one unit; a panic escaping a case (harness bug or a panic in
@@ -445,9 +495,42 @@ func numWorkers() int {
 	return 16
 }
 
+// progressNote is set by long-running state-space constructions so that a watchdog can say where they were.
+var progressNote atomic.Value
+
+// layersWatched evaluates p.Layers(tier) under a watchdog: building the state space of an
+// explicit-state search executes the code under test, which may loop forever after a change.
+func layersWatched(p *Property, tier string) ([]Layer, string) {
+	type res struct{ ls []Layer }
+	ch := make(chan res, 1)
+	go func() { ch <- res{p.Layers(tier)} }()
+	limit := 300 * time.Second
+	if v := os.Getenv("VERIF_LAYERS_LIMIT_S"); v != "" {
+		if n, err := strconv.Atoi(v); err == nil {
+			limit = time.Duration(n) * time.Second
+		}
+	}
+	select {
+	case r := <-ch:
+		return r.ls, ""
+	case <-time.After(limit):
+		note, _ := progressNote.Load().(string)
+		return nil, fmt.Sprintf("constructing the state space did not terminate within %v; last transition started: %s", limit, note)
+	}
+}
+
 // runParent shards the property over worker processes and merges.
 func runParent(p *Property, tier string) int {
 	start := time.Now()
+	if _, hang := layersWatched(p, tier); hang != "" {
+		vd := verifDir()
+		os.MkdirAll(filepath.Join(vd, "replays"), 0o755)
+		path := filepath.Join(vd, "replays", p.ID+"-nontermination.json")
+		rb, _ := json.MarshalIndent(map[string]interface{}{"property": p.ID, "tier": tier, "key": "non-termination", "detail": hang}, "", " ")
+		os.WriteFile(path, rb, 0o644)
+		fmt.Printf("VIOLATION property=%s replay=%s\n  %s\n", p.ID, path, hang)
+		return 1
+	}
 	nw := numWorkers()
 	exe, _ := os.Executable()
 	reports := make([]*WorkerReport, nw)
@@ -693,12 +776,12 @@ func runParent(p *Property, tier string) int {
 			}
 		}
 	}
+	if len(viol) > 0 {
+		return 1
+	}
 	if evals == 0 {
 		fmt.Fprintln(os.Stderr, "HARNESS-ERROR: nothing was evaluated")
 		return 2
-	}
-	if len(viol) > 0 {
-		return 1
 	}
 	return 0
 }
@@ -788,7 +871,10 @@ func runReplay(p *Property, path string) int {
 		c := &Ctx{prop: p, tier: r.Tier, layer: L, stat: &st, unit: r.Unit, replay: true, target: r.Index,
 			failKeys: map[string]bool{}, Outcomes: NewU64Set(1 << 10), Extra: map[string]int64{}, KnownCls: map[string]*KnownStat{}}
 		c.deadline = time.Now().Add(time.Hour)
-		runUnit(c, L, r.Unit)
+		if runUnitWatched(c, L, r.Unit) {
+			fmt.Printf("VIOLATION property=%s replay=%s\n  case: %s\n  the recorded case does not terminate within %v\n", p.ID, path, r.Key, unitLimit(L))
+			return 1
+		}
 		if c.TotalFails > 0 {
 			fmt.Printf("VIOLATION property=%s replay=%s\n", p.ID, path)
 			for _, f := range c.Fails {
